@@ -9,7 +9,7 @@ from pipeline import load_status_table
 
 def plan(t):
     q = t == 'quick'
-    return dict(codes=[200, 206, 404, 500] if q else None, body_lens=(0, 1, 2) if q else (0, 1, 2, 3), ctype_lens=(1, 2) if q else (1, 2, 3), nheaders=(0, 1), hlens=[(1, 1), (2, 2)] if q else [(1, 1), (2, 2), (3, 3)])
+    return dict(codes=[200, 206, 404, 500] if q else None, body_lens=(0, 1, 2) if q else (0, 1, 2, 3, 4, 5), ctype_lens=(1, 2) if q else (1, 2, 3, 4), nheaders=(0, 1), hlens=[(1, 1), (2, 2)] if q else [(1, 1), (2, 2), (3, 3), (4, 4), (1, 6)])
 
 
 def tokenb(b): return z3.Or(z3.And(z3.UGE(b, 65), z3.ULE(b, 90)), z3.And(z3.UGE(b, 97), z3.ULE(b, 122)))
